@@ -95,14 +95,16 @@ def entity_lines(kind, n, attr, case=0):
 def module_source(default, default_pos, ents, context=0, modname="m"):
     """ents: list of (kind, attr, stmt, stmt_pos)."""
     spec, cont = [], []
+    # contexts 3 / 4: access statements share their line with the next statement (`private; x` / `private ; x`)
+    sep = {3: "; ", 4: " ; "}.get(context)
     if default != "none" and default_pos == "early":
-        spec.append(default)
+        spec.append(default + (sep + "integer :: semi_v0" if sep else ""))
     if context == 1:
         spec += ["integer :: before_1", "real, private :: before_2"]
     for n, (kind, attr, stmt, stmt_pos, *rest) in enumerate(ents, 1):
         case = rest[0] if rest else 0
         s, c = entity_lines(kind, n, attr, case)
-        line = f"{stmt} :: {refname(kind, n, upper=(case == 2))}"
+        line = f"{stmt} :: {refname(kind, n, upper=(case == 2))}" + (sep + f"integer :: semi_v{n}" if sep else "")
         if stmt != "none" and stmt_pos == "before":
             spec.append(line)
         spec += s
@@ -112,7 +114,7 @@ def module_source(default, default_pos, ents, context=0, modname="m"):
     if context == 1:
         spec += ["integer, public :: after_1", "real :: after_2"]
     if default != "none" and default_pos == "late":
-        spec.append(default)
+        spec.append(default + (sep + "integer :: semi_vl" if sep else ""))
     src = [f"module {modname}", "implicit none"] + ["  " + l for l in spec]
     if cont:
         src += ["contains"] + ["  " + l for l in cont]
@@ -456,9 +458,9 @@ def work(chunk):
 
 def all_cases(tier):
     if tier == "quick":
-        cases = list(gen_single([0])) + list(gen_pairs([0])) + list(gen_types(False)) + list(gen_submodules()) + list(gen_attrlists(False))
+        cases = list(gen_single([0, 3, 4])) + list(gen_pairs([0])) + list(gen_types(False)) + list(gen_submodules()) + list(gen_attrlists(False))
     else:
-        cases = list(gen_single([0, 1, 2])) + list(gen_pairs([0, 1, 2])) + list(gen_types(True)) + list(gen_submodules()) + list(gen_attrlists(True))
+        cases = list(gen_single([0, 1, 2, 3, 4])) + list(gen_pairs([0, 1, 2, 4])) + list(gen_types(True)) + list(gen_submodules()) + list(gen_attrlists(True))
     return cases
 
 
